@@ -161,6 +161,25 @@ class C05(Prop):
         return {"flat": flat, "nested": nested, "values": [["x", rng.randint(0, 4)], ["y", rng.randint(0, 3)]], "cuts": [subset]}
 
     @staticmethod
+    def _cross_kind_rename(rng: random.Random) -> dict:
+        """A wrapper renamed on BOTH sides where the new name on one side is the old name on the other: the wrapper's input `raw` becomes
+        `clean` (fed by an outer producer of `clean`) while its output `clean` becomes `cleaner`. Input renames and output renames are two
+        separate histories."""
+        fn = gen._fn_node
+        pre, post = rng.choice([("clean", "cleaner"), ("doc", "doc2"), ("v", "vv")])
+        s1 = fn("s1", [["x", None]], [pre], {"b": "tag", "t": "s1"})
+        tidy_flat = dict(fn("tidy", [["raw", None]], [post], {"b": "tag", "t": "tidy"}), inRen=[["raw", pre]])
+        tidy_inner = fn("tidy", [["raw", None]], [pre], {"b": "tag", "t": "tidy"})
+        cnt = fn("cnt", [[post, None]] + ([[pre, None]] if rng.random() < 0.5 else []), ["n"], {"b": "tag", "t": "cnt"})
+        flat_nodes = [s1, tidy_flat, cnt]
+        wrapper = {"name": "w0", "kind": "graph", "inner": 0, "inRen": [["raw", pre]], "outRen": [[pre, post]]}
+        nested_nodes = [s1, wrapper, cnt]
+        order = rng.sample(range(3), 3)
+        flat = [{"name": "g0", "nodes": [flat_nodes[j] for j in order], "bound": []}]
+        nested = [{"name": "w0", "nodes": [tidy_inner], "bound": []}, {"name": "g0", "nodes": [nested_nodes[j] for j in order], "bound": []}]
+        return {"flat": flat, "nested": nested, "values": [["x", rng.randint(0, 4)]], "cuts": [["tidy"]]}
+
+    @staticmethod
     def _two_level_binding(rng: random.Random) -> dict:
         """One input bound at TWO levels: a decoy value on the wrapped graph, the real value on the graph being run (which wins, as
         flat.bind(k=decoy).bind(k=v) uses v) — through wrapper renames, with and without a plain consumer of the name left outside."""
@@ -184,6 +203,10 @@ class C05(Prop):
     def cases(self, rng: random.Random, tier: str) -> Iterable[dict]:
         forced = 4
         forced2 = 4
+        for _ in range(3):      # whatever the seed
+            c = self._cross_kind_rename(rng)
+            for runner in ("sync", "async"):
+                yield dict(c, runner=runner)
         while True:
             if forced or rng.random() < 0.05:
                 forced = max(0, forced - 1)
